@@ -215,7 +215,6 @@ def extract_law(L, weighted, shadow, res, tag):
         finally:
             sim.random = saved
         ch = [e for e in px.log if e[0] == 'choice']
-        cm = [e for e in px.log if e[0] == 'cmp']
         if not ch:
             res['inconclusive'] = 'choose_random made no observable choice'
             return False
@@ -223,11 +222,25 @@ def extract_law(L, weighted, shadow, res, tag):
         n = len(pop)
         if not weighted:
             break
-        if len(ch) != len(cm):
-            res['inconclusive'] = 'selection protocol not recognised (choices %d, accept tests %d)' % (len(ch), len(cm))
+        # each proposal is followed by its accept test; a proposal returned without any test was accepted unconditionally (threshold 1),
+        # e.g. a shortcut for the case that all candidates carry the maximum weight
+        pairs = []
+        for e in px.log:
+            if e[0] == 'choice':
+                pairs.append([e, None])
+            elif e[0] == 'cmp' and pairs and pairs[-1][1] is None:
+                pairs[-1][1] = e
+            elif e[0] == 'cmp':
+                res['inconclusive'] = 'selection protocol not recognised (two accept tests for one proposal)'
+                return False
+        if any(m is None for c, m in pairs[:-1]):
+            res['inconclusive'] = 'selection protocol not recognised (a proposal without accept test was not returned)'
             return False
-        for c, m in zip(ch, cm):
-            thr[c[1][c[2]]] = m[2]
+        for c, m in pairs:
+            thr[c[1][c[2]]] = m[2] if m is not None else 1.0
+        if pairs[-1][1] is None:
+            bump(res, 'unconditional_acceptances_seen')
+            d.last_seq = max(d.last_seq, start)
         if n == 1:
             break
         start = d.last_seq + 1
